@@ -537,11 +537,19 @@ func (l *IPFSLog) Join(otherLog iface.IPFSLog, size int) (iface.IPFSLog, error) 
 		return l, nil
 	}
 
+	// Snapshot the other log before taking our own lock (holding both would
+	// deadlock with a concurrent otherLog.Join(l)). Heads are read before the
+	// entries: the log only grows, so everything these heads reach is in the
+	// entries read afterwards, and the merge is the union with the state the
+	// other log had when its heads were read.
+	otherHeads := otherLog.RawHeads().Slice()
+	otherEntries := otherLog.GetEntries()
+
 	verifBeforeLock(l, true, "Join")
 	l.lock.Lock()
 	defer l.lock.Unlock()
 
-	newItems := difference(otherLog.GetEntries(), otherLog.RawHeads().Slice(), l)
+	newItems := difference(otherEntries, otherHeads, l)
 
 	wg := &sync.WaitGroup{}
 	wg.Add(newItems.Len())
@@ -597,14 +605,14 @@ func (l *IPFSLog) Join(otherLog iface.IPFSLog, size int) (iface.IPFSLog, error) 
 	}
 
 	// only entries that were admitted to the log can be heads, or hide one
-	otherHeads := entry.NewOrderedMap()
-	for _, e := range otherLog.RawHeads().Slice() {
+	admittedHeads := entry.NewOrderedMap()
+	for _, e := range otherHeads {
 		if _, ok := l.Entries.Get(e.GetHash().String()); ok {
-			otherHeads.Set(e.GetHash().String(), e)
+			admittedHeads.Set(e.GetHash().String(), e)
 		}
 	}
 
-	mergedHeads := entry.FindHeads(l.heads.Merge(otherHeads))
+	mergedHeads := entry.FindHeads(l.heads.Merge(admittedHeads))
 
 	for idx, e := range mergedHeads {
 		// notReferencedByNewItems
